@@ -118,6 +118,10 @@ struct RBHandler : mp::internal::NLProblemBuilder<mp::Problem> {
   mp::NLHeader hdr; bool got = false;
   explicit RBHandler(mp::Problem& p) : Base(p) {}
   void OnHeader(const mp::NLHeader& h) { hdr = h; got = true; Base::OnHeader(h); }
+  // the k segment (Jacobian column sizes) is ignored by NLProblemBuilder: record it
+  vector<int> colsizes;
+  struct ColumnSizeHandler { vector<int>* v; void Add(int s) { v->push_back(s); } };
+  ColumnSizeHandler OnColumnSizes() { return ColumnSizeHandler{&colsizes}; }
 };
 
 static void pexpr(std::ostream& o, mp::NumericExpr e) {
@@ -333,6 +337,7 @@ static void run_case(const Case& c, const string& wd, std::ostream& o) {
         if (cc.nonlinear_expr()) { o << " nl "; pexpr(o, cc.nonlinear_expr()); }
         o << "\n";
       }
+      o << id << " colsizes"; for (int v : h.colsizes) o << " " << v; o << "\n";
       for (int k = 0; k < 4; ++k) {
         vector<string> lines;
         for (auto s : p.suffixes((mp::suf::Kind)k)) {
